@@ -28,9 +28,12 @@ type RawInput struct {
 	Segs      []hx.B `json:"segments"`  // client writes (udp: one datagram)
 	Reply     []hx.B `json:"reply"`     // backend's reply writes (udp: one datagram, none = no reply)
 	// a case that is one client of a concurrent scenario carries the whole scenario (replay runs it all)
-	DelayMs int           `json:"delay_ms,omitempty"` // the backend is late with its reply (streams)
-	Conc    *ConcScenario `json:"concurrent,omitempty"`
-	Me      int           `json:"me,omitempty"`
+	DelayMs int `json:"delay_ms,omitempty"` // the backend is late with its reply (streams)
+	// Shared (through the server only): the port is shared with a detector service listed
+	// before the proxy, so findService peeks and the proxy gets the peek wrapper
+	Shared bool          `json:"shared_port,omitempty"`
+	Conc   *ConcScenario `json:"concurrent,omitempty"`
+	Me     int           `json:"me,omitempty"`
 }
 
 type RawObs struct {
@@ -133,7 +136,11 @@ func (e *env) runRaw(in RawInput) (RawObs, string) {
 	var ob RawObs
 	sent := concatB(in.Segs)
 	if in.Transport == "udp" {
-		ob.Parses = new(dns.Msg).Unpack(sent) == nil
+		seen := sent
+		if in.Shared && in.Via == "server" && len(seen) > 1024 {
+			seen = seen[:1024] // what the service's one Read returns behind the peek wrapper
+		}
+		ob.Parses = new(dns.Msg).Unpack(seen) == nil
 	} else if in.Svc == "dns-proxy" && len(in.Segs) > 0 {
 		// the stream branch reads one length-framed message: the oracle is about that message
 		if m, ok := dnsFrame(sent); ok {
@@ -212,7 +219,7 @@ func (e *env) runRaw(in RawInput) (RawObs, string) {
 			sc.Close()
 			cc.Close()
 			var err error
-			sc, cc, err = e.tcpPairOn(in.Svc)
+			sc, cc, err = e.tcpPairOn(in.Svc, in.Shared)
 			if err != nil {
 				hx.Fatal("tcp pair: %v", err)
 			}
@@ -265,6 +272,9 @@ func (e *env) runRaw(in RawInput) (RawObs, string) {
 		port := 7000
 		if in.Svc == "dns-proxy" {
 			port = 53
+		}
+		if in.Shared {
+			port++ // 7001 / 54: shared with a detector service
 		}
 		uc := &listener.DummyUDPConn{Buffer: append([]byte(nil), sent...),
 			Laddr: &net.UDPAddr{IP: net.ParseIP("127.0.0.1"), Port: port},
@@ -369,10 +379,16 @@ func (e *env) runRaw(in RawInput) (RawObs, string) {
 }
 
 // tcpPairOn makes a loopback TCP connection whose server side has a configured local port.
-func (e *env) tcpPairOn(svc string) (*net.TCPConn, *net.TCPConn, error) {
+func (e *env) tcpPairOn(svc string, shared ...bool) (*net.TCPConn, *net.TCPConn, error) {
 	ln := e.lnCopy
 	if svc == "dns-proxy" {
 		ln = e.lnDNS
+	}
+	if len(shared) > 0 && shared[0] {
+		ln = e.lnCopyS
+		if svc == "dns-proxy" {
+			ln = e.lnDNSS
+		}
 	}
 	type res struct {
 		c   net.Conn
@@ -437,6 +453,15 @@ func genRawInputs(o hx.Opts, r *hx.Rand) []RawInput {
 		ins = append(ins, RawInput{Svc: "dns-proxy", Transport: "tcp", Via: "server",
 			Segs:  []hx.B{{byte(len(q) >> 8)}, {byte(len(q))}, hx.B(q[:7]), hx.B(q[7:])},
 			Reply: []hx.B{{byte(len(a) >> 8)}, append([]byte{byte(len(a))}, a[:5]...), hx.B(a[5:])}})
+		// the same deployments on a port shared with a detector service (peek wrapper): a framed
+		// query in ONE segment (the proxy's first read takes only the two length bytes), and in pieces
+		fq := append([]byte{byte(len(q) >> 8), byte(len(q))}, q...)
+		fa := append([]byte{byte(len(a) >> 8), byte(len(a))}, a...)
+		ins = append(ins, RawInput{Svc: "dns-proxy", Transport: "tcp", Via: "server", Shared: true, Segs: []hx.B{fq}, Reply: []hx.B{fa}})
+		ins = append(ins, RawInput{Svc: "dns-proxy", Transport: "tcp", Via: "server", Shared: true, Segs: []hx.B{fq[:9], fq[9:]}, Reply: []hx.B{fa}})
+		ins = append(ins, RawInput{Svc: "dns-proxy", Transport: "udp", Via: "server", Shared: true, Segs: []hx.B{q}, Reply: []hx.B{a}})
+		ins = append(ins, RawInput{Svc: "copy", Transport: "tcp", Via: "server", Shared: true, Segs: []hx.B{hx.B("first segment, "), hx.B("second")}, Reply: []hx.B{hx.B("ok")}})
+		ins = append(ins, RawInput{Svc: "copy", Transport: "udp", Via: "server", Shared: true, Segs: []hx.B{hx.B("datagram")}, Reply: []hx.B{hx.B("ok")}})
 	}
 	n := 40
 	if o.Tier != "quick" {
@@ -512,6 +537,9 @@ func genRawInputs(o hx.Opts, r *hx.Rand) []RawInput {
 		if in.Transport == "tcp" && r.Chance(1, 4) {
 			in.DelayMs = r.PickInt([]int{20, 50})
 		}
+		if in.Via == "server" && r.Chance(1, 3) {
+			in.Shared = true
+		}
 		ins = append(ins, in)
 	}
 	return ins
@@ -528,7 +556,7 @@ func coqRawCase(id int, in RawInput, ob RawObs) string {
 	}
 	kind := base
 	if in.Via == "server" {
-		kind = "(server_wrap false " + base + ")"
+		kind = "(server_wrap " + hx.CoqBool(in.Shared) + " " + base + ")"
 	}
 	var segs, reps []string
 	for _, s := range in.Segs {
@@ -560,6 +588,9 @@ func runRawPart(o hx.Opts, r *hx.Rand, e *env, replay *Input) {
 	for i, in := range ins {
 		ob, crash := e.runRaw(in)
 		dist[in.Svc+"/"+in.Transport+"/"+in.Via]++
+		if in.Shared {
+			dist["shared-port"]++
+		}
 		dist["payload:"+sizeClass(len(concatB(in.Segs)))]++
 		inp := in
 		cases = append(cases, hx.Case{ID: i, Kind: "raw-" + in.Via + "-" + in.Svc + "-" + in.Transport, Input: Input{Part: "raw", Raw: &inp}, Obs: ob, Crash: crash, Coq: coqRawCase(i, in, ob)})
@@ -571,7 +602,7 @@ func runRawPart(o hx.Opts, r *hx.Rand, e *env, replay *Input) {
 		for i := range sc.Clients {
 			id := len(cases)
 			in := sc.Clients[i]
-			in.Svc, in.Transport, in.Via = sc.Svc, sc.Transport, "server"
+			in.Svc, in.Transport, in.Via, in.Shared = sc.Svc, sc.Transport, "server", sc.Shared
 			full := in
 			full.Conc, full.Me = &concs[k], i
 			cases = append(cases, hx.Case{ID: id, Kind: "raw-concurrent-" + sc.Svc + "-" + sc.Transport, Input: Input{Part: "raw", Raw: &full}, Obs: obs[i], Crash: crash[i], Coq: coqRawCase(id, in, obs[i])})
